@@ -4,15 +4,18 @@
   What is mirrored, in the order of the Go text:
   * the name derivation of `call()`: `strings.ToLower(runtime.FuncForPC(..).Name())`,
     `n := strings.LastIndex(full, ".")`, `packageName := full[:n]`, and in the override branch
-    `m := strings.LastIndex(packageName, ".")`, `packageName[:m]` — a slice expression whose bound is
-    `-1` when there is no dot: a Go run-time panic at registration, here `RegPanic.sliceBounds`
-    (the test `len(functionFullName) == -1` of the Go text is dead code and has no counterpart);
+    `m := strings.LastIndex(packageName, ".")`, `packageName[:m]` only if `m >= 0` (else the whole
+    `packageName`); `functionFullName[:n]` is a slice expression whose bound is `-1` for a runtime name
+    without any dot: a Go run-time panic at registration, here `RegPanic.sliceBounds` (no Go function has
+    such a name; the test `len(functionFullName) == -1` of the Go text is dead code, no counterpart);
   * the selection of `minArgs, maxArgs` from `args ...int` (one int: minimum, maximum
     `unlimitedArgments = 1000`; two: both; any other count: derived from the signature, for a
-    non-variadic function `NumIn()` — which counts the context parameter —, else `0, 1000`) and the
-    three registration panics for invalid declarations, then the panic for more than two results;
-  * `_args` / `_args_ctx`: the count check (`_args_ctx` compares with `min-1` / `max-1` whatever the
-    origin of the bounds), which panics with an `error` value; `_recover` turns it into `NewGoError`;
+    non-variadic function `NumIn()` minus the context parameter, else `0, 1000` — bounds always count
+    lisp arguments) and the three registration panics for invalid declarations, then the panic for
+    more than two results;
+  * `_args` / `_args_ctx`: the count check against the bounds as stored, which panics with an `error`
+    value; `_recover` turns it into `NewGoError`;
+    (the code before the repairs 2f9941a / e281c62 is frozen in Proofs/CallBaseline.lean)
   * `reflect.Value.Call`'s own checks as a modelled oracle (reflect/value.go, `Value.call`): too few
     / too many inputs, assignability of the fixed arguments in order, then of the variadic ones; a nil
     lisp argument is `reflect.Zero(MalType)`: an interface-typed value, assignable to interface-typed
@@ -124,7 +127,7 @@ structure Names where
   fullName : List Char
 deriving DecidableEq, Repr
 
-/-- lines 23–37 of call.go; `none` = the slice-bounds panic -/
+/-- lines 23–40 of call.go; `none` = the slice-bounds panic (`functionFullName[:n]` for a name without any dot) -/
 def deriveNames (overrideFN : Option (List Char)) (runtimeName : List Char) : Option Names :=
   let functionFullName := lower runtimeName
   let n := lastIndexDot functionFullName
@@ -133,10 +136,13 @@ def deriveNames (overrideFN : Option (List Char)) (runtimeName : List Char) : Op
   | some packageName =>
     match overrideFN with
     | some o =>
+      -- if m := strings.LastIndex(packageName, "."); m >= 0 { …packageName[:m]… } else { …packageName… }
       let m := lastIndexDot packageName
-      match sliceTo packageName m with
-      | none => none
-      | some p => some ⟨o, packageName, p ++ '[' :: o ++ [']']⟩
+      if 0 ≤ m then
+        match sliceTo packageName m with
+        | none => none
+        | some p => some ⟨o, packageName, p ++ '[' :: o ++ [']']⟩
+      else some ⟨o, packageName, packageName ++ '[' :: o ++ [']']⟩
     | none =>
       match sliceFrom functionFullName (n + 1) with
       | none => none
@@ -168,7 +174,12 @@ def selectRaw (σ : Sig) (decl : List Int) : Except RegPanic (Int × Int) :=
   match decl with
   | [a] => if !σ.isVariadic then .error .notVariadicMin else .ok (a, unlimitedArgments)
   | [a, b] => if !σ.isVariadic then .error .notVariadicMinMax else .ok (a, b)
-  | _ => if !σ.isVariadic then .ok (σ.numIn, σ.numIn) else .ok (0, unlimitedArgments)
+  | _ =>
+    if !σ.isVariadic then
+      -- minArgs, maxArgs = NumIn(), NumIn(); if contextRequired { minArgs, maxArgs = minArgs-1, maxArgs-1 }
+      let k : Int := σ.numIn
+      if σ.ctx then .ok (k - 1, k - 1) else .ok (k, k)
+    else .ok (0, unlimitedArgments)
 
 /-- … and the two checks after it -/
 def selectBounds (σ : Sig) (decl : List Int) : Except RegPanic (Int × Int) :=
@@ -186,7 +197,14 @@ structure Reg where
   minArgs : Int
   maxArgs : Int
   sig : Sig
-deriving Repr
+deriving DecidableEq, Repr
+
+instance : DecidableEq (Except RegPanic Reg) := fun a b =>
+  match a, b with
+  | .ok x, .ok y => if h : x = y then isTrue (h ▸ rfl) else isFalse (fun e => h (Except.ok.inj e))
+  | .error x, .error y => if h : x = y then isTrue (h ▸ rfl) else isFalse (fun e => h (Except.error.inj e))
+  | .ok _, .error _ => isFalse (fun e => by cases e)
+  | .error _, .ok _ => isFalse (fun e => by cases e)
 
 def register (overrideFN : Option (List Char)) (runtimeName : List Char) (σ : Sig) (decl : List Int) :
     Except RegPanic Reg :=
@@ -286,18 +304,16 @@ def reflectCheck (σ : Sig) (args : List Val) : Option ReflectPanic :=
       | some elem => checkVariadic elem (args.drop σ.fixed.length)
       | none => none
 
-/-- the `fmt.Errorf` of `_args` / `_args_ctx`; `lo`, `hi` are the numbers compared with (and printed) -/
-def countMessage (minParams maxParams lo hi : Int) (n : Nat) : String :=
-  if maxParams = unlimitedArgments then s!"wrong number of arguments ({n} instead of a minimum of {lo})"
-  else if minParams = maxParams then s!"wrong number of arguments ({n} instead of {lo})"
-  else s!"wrong number of arguments ({n} instead of {lo}…{hi})"
+/-- the `fmt.Errorf` of `_args` / `_args_ctx` -/
+def countMessage (minParams maxParams : Int) (n : Nat) : String :=
+  if maxParams = unlimitedArgments then s!"wrong number of arguments ({n} instead of a minimum of {minParams})"
+  else if minParams = maxParams then s!"wrong number of arguments ({n} instead of {minParams})"
+  else s!"wrong number of arguments ({n} instead of {minParams}…{maxParams})"
 
-/-- the count check of `_args` (no context) and `_args_ctx` (context: compares with `min-1`, `max-1`);
-    `some msg` = `panic(fmt.Errorf(msg))` -/
-def argsCheck (ctx : Bool) (minParams maxParams : Int) (n : Nat) : Option String :=
-  let lo := if ctx then minParams - 1 else minParams
-  let hi := if ctx then maxParams - 1 else maxParams
-  if (n : Int) < lo ∨ (n : Int) > hi then some (countMessage minParams maxParams lo hi n) else none
+/-- the count check of `_args` (no context) and of `_args_ctx` (context): the same test and the same
+    message in both, against the bounds as `call()` stored them; `some msg` = `panic(fmt.Errorf(msg))` -/
+def argsCheck (_ctx : Bool) (minParams maxParams : Int) (n : Nat) : Option String :=
+  if (n : Int) < minParams ∨ (n : Int) > maxParams then some (countMessage minParams maxParams n) else none
 
 /-- `_nil_nil`, `_nil_error`, `_result_error`, chosen by `NumOut()` -/
 def adapt (results : Nat) (v : Val) (err : Option GoErr) : Val × Option Err :=
